@@ -54,95 +54,191 @@ import Aergo.Props.C12
 namespace Aergo.Props.C02
 open Aergo.Determ
 
-/-! ### Tie T: the nondeterminism inventory -/
+/-- the theorems `Aergo.Nondet.table` may cite, by name (`theoremIndex` at the end of the file resolves each of
+them to a declaration) -/
+def theoremNames : List String := [
+  "Aergo.Props.C02.buildVoteList_order_invariant",
+  "Aergo.Props.C02.voteList_order_unique",
+  "Aergo.Props.C02.vprApply_perm_invariant",
+  "Aergo.Props.C02.vprRowWrites_perm_invariant",
+  "Aergo.Props.C02.export_perm_invariant",
+  "Aergo.Props.C02.dbSets_perm_invariant",
+  "Aergo.Props.C02.idxRollback_perm_invariant",
+  "Aergo.Props.C02.updateStorage_perm_invariant",
+  "Aergo.Props.C02.cacheSnapshot_perm_invariant",
+  "Aergo.Props.C02.cacheRollback_perm_invariant",
+  "Aergo.Props.C02.genesisBalances_perm_invariant",
+  "Aergo.Props.C02.swapDeletes_perm_invariant",
+  "Aergo.Props.C02.swapReoffer_perm",
+  "Aergo.Props.C02.producer_validator_agree"]
 
--- Diagnostic only (the obligation is `all_sites_covered`): name the sites that nobody classified.
-#eval show IO Unit from do
-  let u := Aergo.Nondet.unmapped Aergo.Gen.NondetSites.sites
-  unless u.isEmpty do
-    throw (IO.userError s!"unclassified nondeterminism site(s) in the consensus-critical packages (add them to Aergo.Nondet.table, in ascending order): {u}")
-  unless Aergo.Nondet.coveredInOrder Aergo.Gen.NondetSites.sites Aergo.Nondet.keys do
-    throw (IO.userError "Aergo.Nondet.table is not in ascending key order (the order of Aergo.Gen.NondetSites.sites)")
+/-! ### Tie T: the nondeterminism inventory
 
-private theorem covered_sound : ∀ (sites keys : List String), Aergo.Nondet.coveredInOrder sites keys = true →
-    ∀ s ∈ sites, s ∈ keys
-  | [], _, _, s, hs => by cases hs
-  | _ :: _, [], h, _, _ => by simp [Aergo.Nondet.coveredInOrder] at h
-  | a :: ss, k :: ks, h, s, hs => by
-    simp only [Aergo.Nondet.coveredInOrder] at h
-    by_cases e : (a == k) = true
-    · simp only [e, if_true] at h
-      rcases List.mem_cons.1 hs with rfl | hs
-      · have : s = k := by simpa using e
-        rw [this]; exact List.mem_cons_self
-      · exact List.mem_cons_of_mem _ (covered_sound ss ks h s hs)
-    · simp only [e, if_false] at h
-      exact List.mem_cons_of_mem _ (covered_sound (a :: ss) ks h s hs)
+String equality evaluated inside the kernel is very slow, defeq of string literals is immediate: the positions of
+the generated items in the hand tables are computed by the `#eval` below (native code, not trusted) and the kernel
+only checks, by `rfl`, that the table entries at these positions *are* the generated items. -/
 
-set_option maxRecDepth 100000 in
-/-- Every `range` over a map (or unresolved operand), `.Range(f)`, `time.Now/Since/Until`, use of `rand`,
-`go` statement and `select` statement that the extractor finds in the consensus-critical packages of the
-*current* source has an entry in `Aergo.Nondet.table`: it is mapped to a theorem of this file, to the reason
-why it cannot feed state, or to "sampled only". -/
+open Lean Elab Command in
+#eval show CommandElabM Unit from do
+  let defIdx (name : String) (sub sup : List String) (what : String) : CommandElabM Unit := do
+    match Aergo.Nondet.positions sub sup with
+    | .error missing => throwError "{what}: {missing}"
+    | .ok idx => elabCommand (← `(def $(mkIdent (Name.mkSimple name)) : List Nat := $(quote idx)))
+  defIdx "siteIdx" Aergo.Gen.NondetSites.sites Aergo.Nondet.keys
+    "unclassified nondeterminism site(s) in the consensus-critical packages (add them to Aergo.Nondet.table)"
+  let d := Aergo.Nondet.loopDiffs Aergo.Gen.NondetSites.loops
+  unless d.isEmpty do
+    throwError "map iteration(s) whose body no longer is what was classified: {d}"
+  defIdx "loopIdx" (Aergo.Gen.NondetSites.loops.map (·.1)) (Aergo.Nondet.loopTable.map (·.key))
+    "map iteration(s) without a row in Aergo.Nondet.loopTable"
+  defIdx "loopCoverIdx" (Aergo.Gen.NondetSites.loops.map (·.1)) Aergo.Nondet.keys
+    "map iteration(s) without an entry in Aergo.Nondet.table"
+  defIdx "citedIdx" Aergo.Nondet.citedTheorems theoremNames
+    "theorem(s) cited by Aergo.Nondet.table that are not in theoremIndex"
+  defIdx "closureIdx" Aergo.Gen.NondetSites.closure Aergo.Gen.NondetSites.scannedDirs
+    "package(s) imported by the block-execution roots but not in the scan list of tools/props.d/C02.json"
+
+private theorem pick_mem {α : Type} (xs : List α) : ∀ (idx : List Nat) (l : List α),
+    Aergo.Nondet.pick xs idx = some l → ∀ a ∈ l, a ∈ xs
+  | [], l, h, a, ha => by
+    simp only [Aergo.Nondet.pick, Option.some.injEq] at h
+    subst h; cases ha
+  | i :: is, l, h, a, ha => by
+    simp only [Aergo.Nondet.pick] at h
+    cases hx : xs[i]? with
+    | none => simp [hx] at h
+    | some x =>
+      cases hr : Aergo.Nondet.pick xs is with
+      | none => simp [hx, hr] at h
+      | some r =>
+        simp only [hx, hr, Option.some.injEq] at h
+        subst h
+        rcases List.mem_cons.1 ha with rfl | ha
+        · exact List.mem_of_getElem? hx
+        · exact pick_mem xs is r hr a ha
+
+/-- the keys of the table at the certified positions are exactly the generated sites (kernel: literal defeq) -/
+private theorem sites_at : Aergo.Nondet.pick Aergo.Nondet.keys siteIdx = some Aergo.Gen.NondetSites.sites := by rfl
+
+/-- Every `range` over a map (or unresolved operand), `.Range(f)`, `time.Now/Since/Until`, use of `rand`, `go`
+statement, `select` statement, `sort.*` call, context poll, environment read, `reflect` map walk and `%p` format
+that the extractor finds in the packages of the *current* source that block execution imports has an entry in
+`Aergo.Nondet.table`: it is mapped to a theorem of this file, to the reason why it cannot feed state, to "not a
+map", or to "sampled only". -/
 theorem all_sites_covered : ∀ s ∈ Aergo.Gen.NondetSites.sites, ∃ c, (s, c) ∈ Aergo.Nondet.table := by
   intro s hs
-  have h : Aergo.Nondet.coveredInOrder Aergo.Gen.NondetSites.sites Aergo.Nondet.keys = true := by decide +kernel
-  have := covered_sound _ _ h s hs
+  have := pick_mem _ _ _ sites_at s hs
   obtain ⟨e, he, rfl⟩ := List.mem_map.1 this
   exact ⟨e.2, he⟩
 
-/-! #### the loop bodies, the scan list -/
+/-! #### the loop bodies -/
 
--- Diagnostic only (the obligation is `all_loops_match`): name the loops whose body changed.
-#eval show IO Unit from do
-  let d := Aergo.Nondet.loopDiffs Aergo.Gen.NondetSites.loops
-  unless d.isEmpty do
-    throw (IO.userError s!"map iteration(s) whose body no longer is what was classified: {d}")
-  unless Aergo.Nondet.loopsMatch Aergo.Gen.NondetSites.loops Aergo.Nondet.loopTable do
-    throw (IO.userError "Aergo.Nondet.loopTable has rows for loops that no longer exist, or is not in ascending key order")
-  let missing := Aergo.Gen.NondetSites.closure.filter (fun p => !Aergo.Gen.NondetSites.scannedDirs.contains p)
-  unless missing.isEmpty do
-    throw (IO.userError s!"package(s) imported by the block-execution roots but not in the scan list of tools/props.d/C02.json: {missing}")
+/-- the recorded rows of the generated loops, in the order of `Gen.loops` -/
+def loopRows : List Aergo.Nondet.LoopRow := (Aergo.Nondet.pick Aergo.Nondet.loopTable loopIdx).getD []
 
-private theorem loopsMatch_sound : ∀ (gen : List (String × String × List String × List String × String))
-    (rows : List Aergo.Nondet.LoopRow), Aergo.Nondet.loopsMatch gen rows = true →
-    ∀ g ∈ gen, ∃ r ∈ rows, Aergo.Nondet.rowMatches g r = true
-  | [], _, _, g, hg => by cases hg
-  | _ :: _, [], h, _, _ => by simp [Aergo.Nondet.loopsMatch] at h
-  | a :: gs, r :: rs, h, g, hg => by
-    simp only [Aergo.Nondet.loopsMatch, Bool.and_eq_true] at h
+private theorem loopRows_sub : ∀ r ∈ loopRows, r ∈ Aergo.Nondet.loopTable := by
+  intro r hr
+  unfold loopRows at hr
+  cases h : Aergo.Nondet.pick Aergo.Nondet.loopTable loopIdx with
+  | none => simp [h] at hr
+  | some l => simp only [h, Option.getD_some] at hr; exact pick_mem _ _ _ h r hr
+
+private theorem loopRows_len : loopRows.length = Aergo.Gen.NondetSites.loops.length := by rfl
+
+/-- kernel: literal defeq of the recorded summaries with the generated ones (fingerprint where pinned) -/
+private theorem loopRows_view : loopRows.map Aergo.Nondet.viewRow =
+    Aergo.Nondet.viewGen (loopRows.map (·.pin.isSome)) Aergo.Gen.NondetSites.loops := by rfl
+
+/-- one generated row agrees with one recorded row: same early exits, write targets, callees, state-writing
+callees, and the same fingerprint when the row is pinned -/
+def RowAgrees (g : String × String × List String × List String × List String × String) (r : Aergo.Nondet.LoopRow) : Prop :=
+  r.key = g.1 ∧ r.exits = g.2.1 ∧ r.writes = g.2.2.1 ∧ r.calls = g.2.2.2.1 ∧ r.stateCalls = g.2.2.2.2.1 ∧
+    ∀ h, r.pin = some h → h = g.2.2.2.2.2
+
+private theorem view_agrees : ∀ (rows : List Aergo.Nondet.LoopRow)
+    (gens : List (String × String × List String × List String × List String × String)),
+    rows.length = gens.length →
+    rows.map Aergo.Nondet.viewRow = Aergo.Nondet.viewGen (rows.map (·.pin.isSome)) gens →
+    ∀ g ∈ gens, ∃ r ∈ rows, RowAgrees g r
+  | [], [], _, _, g, hg => by cases hg
+  | [], _ :: _, hl, _, _, _ => by simp at hl
+  | _ :: _, [], hl, _, _, _ => by simp at hl
+  | r :: rs, g0 :: gs, hl, hv, g, hg => by
+    simp only [List.map_cons, Aergo.Nondet.viewGen, List.zipWith_cons_cons, List.cons.injEq] at hv
     rcases List.mem_cons.1 hg with rfl | hg
-    · exact ⟨r, List.mem_cons_self, h.1⟩
-    · obtain ⟨r', hr', hm⟩ := loopsMatch_sound gs rs h.2 g hg
-      exact ⟨r', List.mem_cons_of_mem _ hr', hm⟩
+    · refine ⟨r, List.mem_cons_self, ?_⟩
+      have h1 := hv.1
+      simp only [Aergo.Nondet.viewRow, Prod.mk.injEq] at h1
+      obtain ⟨k1, k2, k3, k4, k5, k6⟩ := h1
+      refine ⟨k1, k2, k3, k4, k5, ?_⟩
+      intro h hp
+      simp only [hp, Option.isSome_some, if_true, Option.getD_some] at k6
+      exact k6
+    · have hl' : rs.length = gs.length := by simpa using hl
+      obtain ⟨r', hr', ha⟩ := view_agrees rs gs hl' hv.2 g hg
+      exact ⟨r', List.mem_cons_of_mem _ hr', ha⟩
 
-set_option maxRecDepth 100000 in
 /-- **The classification is tied to the loop bodies.** For every map iteration of the *current* source (every
 `range` over a map or unresolved operand, every `.Range(f)`) the body summary the extractor computes — early exits,
-non-local write targets, callees — is the one recorded in `Aergo.Nondet.loopTable` when the site was classified,
-and for the bodies a model of `Aergo.Determ` transcribes also the fingerprint of the printed body. A loop that
-starts to call `PutState`, to append to an outer slice or to `break` no longer matches, whatever its class. -/
-theorem all_loops_match : ∀ g ∈ Aergo.Gen.NondetSites.loops, ∃ r ∈ Aergo.Nondet.loopTable,
-    Aergo.Nondet.rowMatches g r = true := by
-  have h : Aergo.Nondet.loopsMatch Aergo.Gen.NondetSites.loops Aergo.Nondet.loopTable = true := by decide +kernel
-  exact loopsMatch_sound _ _ h
+non-local write targets, callees, state-writing callees — is the one recorded in `Aergo.Nondet.loopTable` when the
+site was classified, and for the bodies a model of `Aergo.Determ` transcribes also the fingerprint of the printed
+body. A loop that starts to call `PutState`, to append to an outer slice or to `break` no longer matches, whatever
+its class; an edit of a transcribed body has to be re-read against its model. -/
+theorem all_loops_match : ∀ g ∈ Aergo.Gen.NondetSites.loops, ∃ r ∈ Aergo.Nondet.loopTable, RowAgrees g r := by
+  intro g hg
+  obtain ⟨r, hr, ha⟩ := view_agrees loopRows _ loopRows_len loopRows_view g hg
+  exact ⟨r, loopRows_sub r hr, ha⟩
 
-set_option maxRecDepth 100000 in
-/-- Every loop whose site is mapped to a theorem is pinned by the fingerprint of its body: the model the theorem
-is about was transcribed from exactly that body. -/
-theorem thm_loops_pinned : Aergo.Nondet.thmRowsPinned = true := by decide +kernel
+/-- the table entries of the generated loops, in the order of `Gen.loops` -/
+def loopCovers : List (String × Aergo.Nondet.Cover) := (Aergo.Nondet.pick Aergo.Nondet.table loopCoverIdx).getD []
 
-set_option maxRecDepth 100000 in
-/-- No loop classified `noState` calls a function of `Aergo.Nondet.stateWriters` (block state, receipts, state
-database writers, by name). -/
-theorem noState_loops_call_no_state_writer : Aergo.Nondet.noStateRowsClean = true := by decide +kernel
+private theorem loopCovers_keys : loopCovers.map (·.1) = loopRows.map (·.key) := by rfl
 
-set_option maxRecDepth 100000 in
+private theorem loopCovers_len : loopCovers.length = loopRows.length := by rfl
+
+private theorem loop_rules_hold :
+    (List.zipWith (fun e r => Aergo.Nondet.classRule e.2 r) loopCovers loopRows).all id = true := by decide +kernel
+
+private theorem zip_rules : ∀ (es : List (String × Aergo.Nondet.Cover)) (rs : List Aergo.Nondet.LoopRow),
+    es.length = rs.length → es.map (·.1) = rs.map (·.key) →
+    (List.zipWith (fun e r => Aergo.Nondet.classRule e.2 r) es rs).all id = true →
+    ∀ r ∈ rs, ∃ c, (r.key, c) ∈ es ∧ Aergo.Nondet.classRule c r = true
+  | [], [], _, _, _, r, hr => by cases hr
+  | [], _ :: _, hl, _, _, _, _ => by simp at hl
+  | _ :: _, [], hl, _, _, _, _ => by simp at hl
+  | e :: es, r0 :: rs, hl, hk, ha, r, hr => by
+    simp only [List.map_cons, List.cons.injEq] at hk
+    simp only [List.zipWith_cons_cons, List.all_cons, id, Bool.and_eq_true] at ha
+    rcases List.mem_cons.1 hr with rfl | hr
+    · refine ⟨e.2, ?_, ha.1⟩
+      rw [← hk.1]; exact List.mem_cons_self
+    · have hl' : es.length = rs.length := by simpa using hl
+      obtain ⟨c, hc, hrule⟩ := zip_rules es rs hl' hk.2 ha.2 r hr
+      exact ⟨c, List.mem_cons_of_mem _ hc, hrule⟩
+
+/-- **Class rules of the loops.** Every recorded row of a generated loop has its site in `Aergo.Nondet.table` and
+obeys the rule of its class: a site mapped to a theorem is pinned by the fingerprint of its body (the model the
+theorem is about was transcribed from exactly that body); a site classified `noState` calls no state-writing
+function (`stateCalls = []`: block state, receipts, state database writers, by name). -/
+theorem loop_class_rules : ∀ r ∈ loopRows, ∃ c, (r.key, c) ∈ Aergo.Nondet.table ∧ Aergo.Nondet.classRule c r = true := by
+  intro r hr
+  obtain ⟨c, hc, hrule⟩ := zip_rules loopCovers loopRows loopCovers_len loopCovers_keys loop_rules_hold r hr
+  refine ⟨c, ?_, hrule⟩
+  unfold loopCovers at hc
+  cases h : Aergo.Nondet.pick Aergo.Nondet.table loopCoverIdx with
+  | none => simp [h] at hc
+  | some l => simp only [h, Option.getD_some] at hc; exact pick_mem _ _ _ h _ hc
+
+/-! #### the scan list -/
+
+private theorem closure_at :
+    Aergo.Nondet.pick Aergo.Gen.NondetSites.scannedDirs closureIdx = some Aergo.Gen.NondetSites.closure := by rfl
+
 /-- **The scan list is closed under imports.** Every package of this module that `chain`, `consensus/chain` or
 `consensus/impl/dpos` transitively import (computed from the current source) is scanned completely. A package
 that block execution starts to use cannot stay outside the inventory. -/
-theorem closure_scanned : ∀ p ∈ Aergo.Gen.NondetSites.closure, p ∈ Aergo.Gen.NondetSites.scannedDirs := by
-  decide +kernel
+theorem closure_scanned : ∀ p ∈ Aergo.Gen.NondetSites.closure, p ∈ Aergo.Gen.NondetSites.scannedDirs :=
+  pick_mem _ _ _ closure_at
 
 /-- Self-test of the extractor on a synthetic package with known answers (`corpus/C02/synth`, regenerated on
 every run like the real inventory): maps behind named types, fields, promoted fields, fields and functions
@@ -190,17 +286,19 @@ theorem extractor_selftest : Aergo.Gen.NondetSynth.sites = [
     "a/a.go:holder.ranges:maprange:z",
     "a/a.go:holder.ranges:range?:unknown.Field",
     "a/a.go:holder.ranges:syncmap:h.sm.Range",
-    "a/a.go:var initialised:maprange:pkgMap"] := by decide +kernel
+    "a/a.go:var initialised:maprange:pkgMap"] := by rfl
 
 /-- Self-test of the loop-body summary: early exits (`return`, `break` but not the `break` of an inner `switch`,
 `continue outer`, `return false` of a `.Range` callback, not the `return` of a nested function literal), writes
-(non-local targets only, index expressions abstracted, `delete`), calls (logger chain left out). A *test*. -/
+(non-local targets only, index expressions abstracted, `delete`), calls (logger chain left out), state-writing
+calls by name. A *test* of the tool. -/
 theorem extractor_selftest_loops :
-    (Aergo.Gen.NondetSynth.loops.take 4).map (fun g => (g.1, g.2.1, g.2.2.1, g.2.2.2.1)) = [
-    ("a/a.go:holder.effects:maprange:h.m", "return", ["h.box.Items[_]", "out", "total"], [".Put", "append", "fmt.Errorf", "fmt.Sprint"]),
-    ("a/a.go:holder.effects:maprange:h.m#1", "break", ["delete(h.m)"], []),
-    ("a/a.go:holder.effects:maprange:h.m#2", "continue outer", [], ["func"]),
-    ("a/a.go:holder.effects:syncmap:h.sm.Range", "return false", ["total"], [])] := by decide +kernel
+    (Aergo.Gen.NondetSynth.loops.take 4).map (fun g => (g.1, g.2.1, g.2.2.1, g.2.2.2.1, g.2.2.2.2.1)) = [
+    ("a/a.go:holder.effects:maprange:h.m", "return", ["h.box.Items[_]", "out", "total"],
+      [".Put", "append", "fmt.Errorf", "fmt.Sprint"], [".Put"]),
+    ("a/a.go:holder.effects:maprange:h.m#1", "break", ["delete(h.m)"], [], []),
+    ("a/a.go:holder.effects:maprange:h.m#2", "continue outer", [], ["func"], []),
+    ("a/a.go:holder.effects:syncmap:h.sm.Range", "return false", ["total"], [], [])] := by rfl
 
 /-! ### Vote list: `VoteList.Less` and `buildVoteList` -/
 
@@ -571,10 +669,18 @@ def theoremIndex : List (String × Lean.Name) := [
   ("Aergo.Props.C02.swapReoffer_perm", ``swapReoffer_perm),
   ("Aergo.Props.C02.producer_validator_agree", ``producer_validator_agree)]
 
+/-- the names of `theoremIndex` are the list `theoremNames` the certificate was computed against -/
+private theorem index_names : theoremIndex.map (·.1) = theoremNames := by rfl
+
+private theorem cited_at : Aergo.Nondet.pick theoremNames citedIdx = some Aergo.Nondet.citedTheorems := by rfl
+
 /-- Every theorem name the site table cites is one of `theoremIndex` (a renamed or deleted theorem must not
 leave a site "covered"); that each index entry is a declaration is checked by the elaborator (``name). -/
-theorem cited_theorems_exist :
-    Aergo.Nondet.citedTheorems.all (fun n => theoremIndex.any (fun e => e.1 == n)) = true := by
-  decide +kernel
+theorem cited_theorems_exist : ∀ n ∈ Aergo.Nondet.citedTheorems, ∃ d, (n, d) ∈ theoremIndex := by
+  intro n hn
+  have := pick_mem _ _ _ cited_at n hn
+  rw [← index_names] at this
+  obtain ⟨e, he, rfl⟩ := List.mem_map.1 this
+  exact ⟨e.2, he⟩
 
 end Aergo.Props.C02
